@@ -65,17 +65,20 @@ Section OvlPure.
     - intros ex _. destruct ex; [constructor; cbn; exact Hl|exact IH].
   Qed.
 
+  Lemma lower_reads : Forall (fun l => reads_ok (fst l)) lower.
+  Proof. now inversion all_ok. Qed.
+
   Lemma p_read_path p : calls_okQ ok (okres (fun lp => reads_ok (fst lp))) (read_path top lower p).
   Proof.
     unfold read_path. destruct p as [|x p']; [constructor; apply top_reads|]. set (p := x :: p').
     eapply calls_okQ_bind_res with (Q := fun _ => True); try (intros; exact I).
     - eapply calls_okQ_weaken; [|apply calls_ok_okQ; exact (top_reads (CExists _) eq_refl)]. intros [] _; exact I.
-    - intros wo _. destruct wo; [constructor; exact I|].
-      eapply calls_okQ_bind_res; try (intros; exact I); [apply p_first_layer, all_ok|].
-      intros [lp|] Hlp; [constructor; exact Hlp|].
+    - intros up _. destruct up; [constructor; apply top_reads|].
       eapply calls_okQ_bind_res with (Q := fun _ => True); try (intros; exact I).
       + eapply calls_okQ_weaken; [|apply calls_ok_okQ; exact (top_reads (CExists _) eq_refl)]. intros [] _; exact I.
-      + intros ex _. destruct ex; constructor; [apply top_reads|exact I].
+      + intros wo _. destruct wo; [constructor; exact I|].
+        eapply calls_okQ_bind_res; try (intros; exact I); [apply p_first_layer, lower_reads|].
+        intros [lp|] Hlp; constructor; [exact Hlp|exact I].
   Qed.
 
   Lemma p_with_read_path {T} p (f : vfs * path -> bprog (res T)) :
@@ -114,12 +117,11 @@ Section OvlPure.
       unfold ovl_metadata. apply p_with_read_path. intros lp Hr.
       apply (vp_metadata_ok ok (fst lp) AR Hr). reflexivity.
     - (* exists *)
-      unfold ovl_exists. apply calls_ok_bind_res; [exact (top_reads (CExists _) eq_refl)|]. intros wo.
-      destruct wo; [constructor|].
+      unfold ovl_exists.
       eapply calls_okQ_ok with (Q := fun _ => True).
       eapply calls_okQ_bind; [apply p_read_path|].
       intros [lp|e|] Hlp; [|destruct (e_kind e); constructor; exact I|constructor; exact I].
-      apply calls_ok_okQ. exact (Hlp (CExists _) eq_refl).
+      apply calls_ok_okQ. exact (Hlp (CExists (snd lp)) eq_refl).
   Qed.
 End OvlPure.
 
